@@ -1,4 +1,5 @@
 import Driver.CacheDrv
+import Driver.TableDrv
 import CacheVerif.Model.CacheOf
 import CacheVerif.Spec.TTL
 /-!
@@ -13,6 +14,8 @@ inductive MState where
   | cache (s : Cache.St String Val)
   | cacheOf (s : CacheOf.St String Val)
   | spec (s : Spec.TTL.St String Val)
+  | table (ts : TState)
+  | specMap (sm : SpecMap)
 
 def optInt (s : String) : Option (Option Int) := if s == "nil" then some none else s.toInt?.map some
 
@@ -48,9 +51,15 @@ def stepLine (useSpec : Bool) (st : MState) (line : String) : MState Ã— String Ã
         else (.spec (Spec.TTL.construct (some d) c n), "-", false)
       | _, _, _ => (st, "bad-op", false)
     else stepModel st t
+  | ["newmap", _, _, _, _, _, wb] =>
+    if useSpec then (.specMap { m := [], wb := wb == "1" }, "-", false) else stepModel st t
   | _ => stepModel st t
 where stepModel (st : MState) (t : List String) : MState Ã— String Ã— Bool :=
   match t with
+  | ["newmap", kind, hint, growOnly, seed, mode, wb] =>
+    match newTState kind hint growOnly seed mode wb with
+    | some ts => (.table ts, "-" ++ (if ts.wb then layoutStr ts none else ""), false)
+    | none => (st, "bad-op", false)
   | ["new", "cache", variant, now, dflt, cleanup, cb, mincap] =>
     match parseCtor variant dflt cleanup cb mincap, now.toInt? with
     | some c, some n => (.cache (Cache.construct c n).1, "-", false)
@@ -62,6 +71,12 @@ where stepModel (st : MState) (t : List String) : MState Ã— String Ã— Bool :=
   | _ =>
     match st with
     | .none => (st, "bad-op", false)
+    | .table ts =>
+      let r := stepMapLine ts t
+      (.table r.1, r.2.1, r.2.2)
+    | .specMap sm =>
+      let r := stepSpecMap sm t
+      (.specMap r.1, r.2, false)
     | .spec s =>
       match parseCacheOp t with
       | some op =>
